@@ -180,6 +180,9 @@ func (h *hist) write(label string) {
 	r := h.drawRow(label)
 	shard := rapid.IntRange(0, h.nIdx-1).Draw(h.t, label+"shard")
 	mode := rapid.SampledFrom([]string{"meta+index", "index+meta", "index", "meta"}).Draw(h.t, label+"workers")
+	if h.flt != nil && h.flt.forceShard >= 0 {
+		shard = h.flt.forceShard // fault_test.go: the rows of a fault-and-retry operation go to one shard
+	}
 	forHot := h.hot != nil && rapid.IntRange(0, 3).Draw(h.t, label+"forHotTarget") != 0
 	if forHot {
 		// a new series of the (shard, metric) whose sequence cache entry was dropped
@@ -459,6 +462,9 @@ func (h *hist) wantImage(p crash.Point) bool {
 	if h.thorough {
 		limit, pOther, pWrite = 40, 1, 3
 	}
+	if h.faultRetryInFlight() {
+		limit, pOther, pWrite = max(limit, 16), 1, min(pWrite, 4)
+	}
 	if h.copiesInFlush >= limit {
 		return false
 	}
@@ -562,12 +568,24 @@ func (h *hist) crashCheck() {
 			pts = append(pts, p)
 		}
 	}
-	max := 6
+	maxImages := 6
 	if h.thorough {
-		max = 40
+		maxImages = 40
 	}
-	for len(pts) > max {
+	if h.flt != nil {
+		maxImages += 4
+	}
+	for len(pts) > maxImages {
 		i := rapid.IntRange(0, len(pts)-1).Draw(h.t, "dropImage")
+		if h.faultKeepImage(pts[i]) {
+			// images of a fault window go last: drop the next one outside a window, if any
+			for j := 1; j < len(pts); j++ {
+				if k := (i + j) % len(pts); !h.faultKeepImage(pts[k]) {
+					i = k
+					break
+				}
+			}
+		}
 		pts = append(pts[:i], pts[i+1:]...)
 	}
 	for _, p := range pts {
@@ -587,7 +605,9 @@ func (h *hist) recoverImage(p crash.Point) {
 	// image simply are not found; the image's own durability knowledge decides what must be found.
 	dur := h.imgDur[p.Seq]
 	// work on a copy of the model: the recovered node's world diverges from the live one
-	if _, err := checkRecovered(n, h.w, h.m.clone(), dur, func(s string) { h.classes[s]++ }); err != nil {
+	// fault histories: every second image meets new series before its old names
+	newFirst := h.flt != nil && p.Seq%2 == 1
+	if _, err := checkRecoveredOrder(n, h.w, h.m.clone(), dur, func(s string) { h.classes[s]++ }, newFirst); err != nil {
 		h.fatalf("image %s: %v", p, err)
 	}
 	h.imagesChecked++
@@ -641,6 +661,15 @@ func (m *model) clone() *model {
 // must not get an id that any recovered entry uses for another name; the recovered node as a
 // whole must satisfy the live oracle (functional, injective, lookups agree).
 func checkRecovered(n *node, w *wire, m *model, dur durable, class func(string)) (*model, error) {
+	return checkRecoveredOrder(n, w, m, dur, class, false)
+}
+
+// checkRecoveredOrder with newFirst: step B starts with a series that never existed for every
+// (shard, metric) that has series - before any old name is requested again. A restarted node meets
+// its rows in any order; a series that lost its dictionary entry is given its old id again when
+// it happens to be the first one of its metric to come back (highest recovered posting + 1), which
+// hides that the recovered forward / inverted index already holds entries under that id.
+func checkRecoveredOrder(n *node, w *wire, m *model, dur durable, class func(string), newFirst bool) (*model, error) {
 	rm := newModel(m.nIdx) // what the recovered node tells its callers
 	rm.seq = m.seq + 1
 
@@ -926,6 +955,19 @@ func checkRecovered(n *node, w *wire, m *model, dur durable, class func(string))
 		}
 		return nil
 	}
+	if newFirst {
+		for _, k := range sortedMetricKeys(m.metrics) {
+			for i := range n.idx {
+				if len(m.series[i][k]) == 0 {
+					continue
+				}
+				if err := request(i, rowSpec{NS: k.NS, Name: k.Name, Tags: []kvPair{{"zz-first", "zz"}}, Fields: []string{"f0"}}, "index"); err != nil {
+					return nil, err
+				}
+				class("recovered-node-new-series-before-old-names")
+			}
+		}
+	}
 	// all old names again
 	for _, k := range sortedMetricKeys(m.metrics) {
 		mm := m.metrics[k]
@@ -982,6 +1024,7 @@ func checkRecovered(n *node, w *wire, m *model, dur durable, class func(string))
 		} else if om != nil && om.id != nm.id {
 			class("lost-name-got-new-id")
 		}
+		sameMetric := om != nil && om.id == nm.id
 		for _, f := range sortedKeys(nm.fields) {
 			var ox *ident
 			if om != nil {
@@ -989,7 +1032,9 @@ func checkRecovered(n *node, w *wire, m *model, dur durable, class func(string))
 					ox = x
 				}
 			}
-			if foundField[k.String()+"\x00"+f] && nm.fields[f].id != ox.id {
+			// (the fields / tag keys of a metric whose name came back with another id are a new scope:
+			// the schema stored under the old id is not reachable any more)
+			if sameMetric && foundField[k.String()+"\x00"+f] && nm.fields[f].id != ox.id {
 				return nil, fmt.Errorf("RECOVERED NAME CHANGED ID: field %s.%s had id %d, GenFieldID on the recovered node says %d", k, f, ox.id, nm.fields[f].id)
 			}
 		}
@@ -1001,7 +1046,8 @@ func checkRecovered(n *node, w *wire, m *model, dur durable, class func(string))
 					ot = x
 				}
 			}
-			if foundKey[k.String()+"\x00"+tk] {
+			keyKept := sameMetric && foundKey[k.String()+"\x00"+tk]
+			if keyKept {
 				if ot != nil && nt.id != ot.id {
 					return nil, fmt.Errorf("RECOVERED NAME CHANGED ID: tag key %s[%s] had id %d, the recovered node now says %d", k, tk, ot.id, nt.id)
 				}
@@ -1022,9 +1068,11 @@ func checkRecovered(n *node, w *wire, m *model, dur durable, class func(string))
 						ov = x
 					}
 				}
-				if foundVal[k.String()+"\x00"+tk+"\x00"+v] {
+				// (likewise the values of a tag key that came back with another id: the dictionary bucket of
+				// the old tag key id is not reachable any more)
+				if keyKept && foundVal[k.String()+"\x00"+tk+"\x00"+v] {
 					if ov != nil && nv.id != ov.id {
-						return nil, fmt.Errorf("RECOVERED NAME CHANGED ID: tag value %s[%s=%s] had id %d, the recovered node now says %d", k, tk, v, ov.id, nv.id)
+						return nil, fmt.Errorf("RECOVERED NAME CHANGED ID: tag value %s[%s=%s] had id %d, the recovered node now says %d (tag key id before %+v, now %d; tag key found in the recovered schema: %v)", k, tk, v, ov.id, nv.id, ot.ident, nt.id, foundKey[k.String()+"\x00"+tk])
 					}
 				} else {
 					var old uint32
